@@ -7,6 +7,7 @@ from dataclasses import dataclass, field
 from typing import Dict, List, Optional, Tuple
 
 from .core import (
+    block_always_exits_noreturn,
     Module,
     Unrecognised,
     call_name,
@@ -114,8 +115,10 @@ def resolve_handler(expr: ast.expr, near: ast.AST, module: Module) -> Optional[a
     return None
 
 
-def is_bound(expr: ast.expr) -> bool:
-    return isinstance(expr, ast.Attribute) and isinstance(expr.value, ast.Name) and expr.value.id == "self"
+def is_bound(expr: ast.expr, target: Optional[ast.AST] = None) -> bool:
+    if target is not None and any(dotted(d) == "staticmethod" for d in getattr(target, "decorator_list", [])):
+        return False
+    return isinstance(expr, ast.Attribute) and isinstance(expr.value, ast.Name) and expr.value.id in ("self", "cls")
 
 
 def accepts(fn: ast.AST, n: int, bound: bool = False) -> bool:
@@ -130,7 +133,7 @@ def accepts(fn: ast.AST, n: int, bound: bool = False) -> bool:
     return lo <= n and (hi is None or n <= hi)
 
 
-def check_flow_arity(ctx, rule: str, fn: ast.FunctionDef, min_handlers: int, expected_tables: int = 1) -> List[FlowTable]:
+def check_flow_arity(ctx, rule: str, fn: ast.FunctionDef, min_handlers: int, expected_tables: int = 1, raising_is_note: bool = True, as_note: bool = False) -> List[FlowTable]:
     """A1: every handler (and every .lash handler) accepts the arguments it is called with."""
     module = module_of(fn)
     tables = find_flow_tables(fn)
@@ -144,7 +147,13 @@ def check_flow_arity(ctx, rule: str, fn: ast.FunctionDef, min_handlers: int, exp
             construct = f"{module.relpath}:{qual(fn)}"
             if target is None:
                 raise Unrecognised(rule, construct, f"handler {src(h)} cannot be resolved")
-            ok = accepts(target, t.n_args, bound=is_bound(h))
+            ok = accepts(target, t.n_args, bound=is_bound(h, target))
+            always_raises = isinstance(target, ast.FunctionDef) and block_always_exits_noreturn(target.body)
+            if not ok and (as_note or (raising_is_note and always_raises)):
+                ctx.note(rule, construct, f"handler {src(h)}", site(target),
+                         f"handler {src(h)} is called with {t.n_args} arguments but accepts {positional_arity(target)}; "
+                         + ("it raises on every path anyway, so only the exception type changes (TypeError instead of the intended one)" if always_raises else "table not reachable from the property's entry points"))
+                continue
             ctx.check(
                 ok,
                 rule,
@@ -161,7 +170,7 @@ def check_flow_arity(ctx, rule: str, fn: ast.FunctionDef, min_handlers: int, exp
             if target is None:
                 raise Unrecognised(rule, construct, f"lash handler {src(h)} cannot be resolved")
             ctx.check(
-                accepts(target, 1, bound=is_bound(h)),
+                accepts(target, 1, bound=is_bound(h, target)),
                 rule,
                 construct,
                 f"lash {src(h)}",
